@@ -171,6 +171,10 @@ def check_property(prop, tier, only=None, jobs_n=None, seed=0):
     # 1. concrete examples on the real code (no CrossHair, no stubs): reachability witnesses + harness validation
     items = []
     for h in hs:
+        if not h.example and not h.params:
+            pass          # parameterless harness: its single run is its own witness
+        if h.example is None or h.example == {"__none__": True}:
+            continue
         for i, ex in enumerate([h.example] + list(h.extra_examples)):
             items.append({"key": "%s#%d" % (h.name, i), "module": h.module, "func": h.func, "fixed": _example_fixed(h, ex), "args": ex})
     exres, raw = concrete(items, repo, profile=True)
@@ -236,7 +240,11 @@ def check_property(prop, tier, only=None, jobs_n=None, seed=0):
                 if kf is not None and rounds < 6:
                     rounds += 1
                     known_hit.append({"harness": h.name, "args": full, "what": kf["what"]})
-                    lines.append("KNOWN-FINDING: property=%s %s" % (prop, kf["what"]))
+                    kline = "KNOWN-FINDING: property=%s %s" % (prop, kf["what"])
+                    if kline not in lines:
+                        lines.append(kline)
+                    if kf.get("whole_cube"):
+                        continue      # the listed region is this whole cube: nothing is left to re-check in it
                     # residual: same cube with the listed region excluded must hold
                     job2 = dict(r["job"]); job2["pre"] = list(job2["pre"]) + ["not (%s)" % _inline_fixed(kf["match"], job2["fixed"])]
                     job2["id"] = r["job"]["id"] + "~residual%d" % rounds
